@@ -200,6 +200,10 @@ fn class_completion_case(rng: &mut Rng, ctx: &mut Ctx) {
         k += 1;
         let name = format!("K{}{}", k, ["", "_x", "Cls"][rng.below(3)]);
         let ar = rng.below(4);
+        // the forward-declaration idiom: `class K;` first, the real definition afterwards (still ONE class)
+        if rng.chance(1, 4) {
+            out.push_str(&format!("class {};\n", name));
+        }
         let mut s = format!("class {}", name);
         if ar > 0 {
             s.push('<');
